@@ -76,6 +76,40 @@ def load_known():
     return opened, data.get('fixed', [])
 
 
+class CaseHang(BaseException):
+    """Raised by the real-time watchdog inside the code under test when one case does not come back."""
+
+
+HANG_S = float(os.environ.get('VERIF_HANG_S', '180'))
+
+
+def _on_alarm(signum, frame):
+    raise CaseHang()
+
+
+def guarded(fn, case):
+    """fn(case) under a real-time watchdog (main thread only): a case takes milliseconds to a few seconds, so one that is still
+    running after HANG_S seconds is code under test that loops without end - which every property that speaks about
+    'hangs', 'stops serving' or 'bounded time' forbids.  The alarm repeats so that it also gets out of handlers that swallow it."""
+    import signal
+    import threading
+    if threading.current_thread() is not threading.main_thread() or not hasattr(signal, 'setitimer'):
+        return fn(case)
+    old = signal.signal(signal.SIGALRM, _on_alarm)
+    signal.setitimer(signal.ITIMER_REAL, HANG_S, 2.0)
+    try:
+        try:
+            return fn(case)
+        finally:
+            signal.setitimer(signal.ITIMER_REAL, 0)
+    except CaseHang:
+        signal.setitimer(signal.ITIMER_REAL, 0)
+        return Outcome([Disc('no-termination', 'the case was still running after %.0f s of real time (cases take milliseconds): the code under test '
+                                               'loops without end' % HANG_S)], ['watchdog'], True)
+    finally:
+        signal.signal(signal.SIGALRM, old)
+
+
 class _StopSearch(KeyboardInterrupt):
     """Raised through Hypothesis to end shrinking when its time budget is used."""
 
@@ -158,7 +192,7 @@ class Runner(object):
     def judge(self, case, keep_sample=None):
         """Run one case; return list of unknown discrepancies."""
         try:
-            out = self.mod.run_case(case)
+            out = guarded(self.mod.run_case, case)
         except HarnessError:
             raise
         if keep_sample is None:
